@@ -7,6 +7,8 @@ import (
 	"bytes"
 	"context"
 	"encoding/binary"
+	"encoding/hex"
+	"encoding/json"
 	"fmt"
 	"sort"
 	"strings"
@@ -79,6 +81,38 @@ var SharedPool = pool.NewBuffPool()
 type K struct {
 	N uint32
 	S string
+}
+
+// JSON: S may hold arbitrary bytes; it is written as hex ("H") so that replay files are exact.
+// Hand-written corpus files may use the plain form ("S").
+func (a K) MarshalJSON() ([]byte, error) {
+	return json.Marshal(struct {
+		N uint32
+		H string
+	}{a.N, hex.EncodeToString([]byte(a.S))})
+}
+
+func (a *K) UnmarshalJSON(b []byte) error {
+	var w struct {
+		N uint32
+		S *string
+		H *string
+	}
+	if err := json.Unmarshal(b, &w); err != nil {
+		return err
+	}
+	a.N = w.N
+	switch {
+	case w.H != nil:
+		raw, err := hex.DecodeString(*w.H)
+		if err != nil {
+			return err
+		}
+		a.S = string(raw)
+	case w.S != nil:
+		a.S = *w.S
+	}
+	return nil
 }
 
 func (a K) Cmp(b K) int {
